@@ -574,6 +574,8 @@ def analyse(tree, att, det, src=b"", extra=None):
     message literals (round-trip mode as it is never prints those separators, nor their leading trivia)."""
     F = set()
     sep_leading = []
+    dict_seps = []
+    stray = [False]
     # offsets: the leaves tile the text in stream order
     off = [0]
     end_of = {}
@@ -604,6 +606,10 @@ def analyse(tree, att, det, src=b"", extra=None):
         prev = prev2 = None
         run = []
         solids = [t for t in ts if t["c"] > 4]
+        if kind in ("file", "body"):
+            lit = [t["c"] == 8 and _txt(t)[:1] in b"0123456789.\"'" for t in solids]
+            if any(lit[i] and lit[i + 1] and lit[i + 2] for i in range(len(lit) - 2)):
+                stray[0] = True
         for t in ts:
             cls[t["id"]] = t["c"]
             if t["c"] <= 4:
@@ -617,6 +623,7 @@ def analyse(tree, att, det, src=b"", extra=None):
             if kind == "dict" and t["c"] in (5, 6):
                 F.add("roundtrip-drops-message-literal-separator")
                 sep_leading.extend(A.get(t["id"], {"l": []})["l"])
+                dict_seps.append(_txt(t))
             if t["c"] >= 9:
                 k2 = scope_kind(t, kind, prev, prev2)
                 if t["id"] not in A:
@@ -631,6 +638,8 @@ def analyse(tree, att, det, src=b"", extra=None):
                 slots = dd["slots"] or []
                 if k2 != "body" and any(len(s) > 0 for s in slots[1:]):
                     F.add("roundtrip-misplaces-detached-trivia-in-literal")
+                    for s in slots[1:]:
+                        sep_leading.extend(s)      # emitted at the wrong element or not at all
                 if k2 == "body":
                     sol = [x for x in t["ch"] if x["c"] > 4]
                     pend = list(slots[-1]) if slots else []
@@ -660,6 +669,8 @@ def analyse(tree, att, det, src=b"", extra=None):
     if extra is not None:
         extra["sep_leading"] = sep_leading
         extra["cls"] = cls
+        extra["dict_seps"] = dict_seps
+        extra["stray_literals"] = stray[0]
     for run, depth, nxt in info["gaps"]:
         if run and depth >= 1 and all(x["c"] == 1 and _txt(x) == b"\n" for x in run):
             F.add("roundtrip-reindents-unindented-line")
